@@ -148,6 +148,17 @@ def _job(args):
         with deadline(20.0):
             tree = ft.build_tree(path, graphtage.BuildOptions())
             obs.append({"k": "doc", "v": abstract(tree), "raised": False, "how": "loaded"})
+            # the formatters are process-wide default instances: what was printed before must not matter.  Every second
+            # document is printed right after a plain-text DIFF went through the same formatter (string edits ending in an
+            # inserted / a removed run, a multi-line string edit, an inserted and a removed item)
+            if idx % 2 == 1:
+                try:
+                    from graphtage import json as gjson
+                    da = gjson.build_tree({"s": "foo", "t": "line one\nline two", "u": "abcd", "l": [1, 2]})
+                    db = gjson.build_tree({"s": "foobar", "t": "line one\nline 2", "u": "ab", "l": [2, 3]})
+                    ft.get_default_formatter().print(Printer(_Stream(), ansi_color=False, quiet=True), da.diff(db))
+                except Exception:
+                    pass
             out = _Stream()
             p = Printer(out, ansi_color=False, quiet=True)
             ft.get_default_formatter().print(p, tree)
@@ -222,7 +233,8 @@ def run():
                 "backslashes, controls, separators, BMP and astral characters, combining marks, JSON-looking text, deep "
                 "nesting, empty containers, -0.0, subnormals, 1.797e308, 30-digit integers; CSV - quotes, commas, CR/LF "
                 "inside fields, blanks; YAML/plist/XML - alphanumeric content incl. YAML-reserved words; each loaded, printed "
-                "by its own formatter to Printer(ansi_color=False), reloaded by the same loader; distinct by (format, text)" % n)
+                "by its own formatter to Printer(ansi_color=False) - every second one right after a plain-text diff went through the "
+                "same (process-wide) formatter -, reloaded by the same loader; distinct by (format, text)" % n)
     chk.assumptions = ["equal document = equal abstract value (wrapper classes without __eq__ and string quoting style are not "
                        "data); XML text modulo surrounding whitespace",
                        "YAML empty containers and CSV rows without content are outside the decided domain"]
